@@ -119,6 +119,12 @@ func Gate(point string) {
 	}
 }
 
+// Step is Yield followed by Gate: one controllable point in front of an atomic step.
+func Step(point string) {
+	Yield(point)
+	Gate(point)
+}
+
 // ID returns a small stable id for a pointer-like object.
 func ID(obj any) int {
 	v := reflect.ValueOf(obj)
